@@ -29,7 +29,7 @@ def parseList {α} (p : String → Option α) (s : String) : Option (List α) :=
 /-- what the model can execute (anything else is `bad-op`) -/
 def cbSupported (r : CbRule) : Bool := r.strat == 1 || r.strat == 2
 def flowSupported (r : FlowRule) : Bool :=
-  r.rel == 0 && r.tcs == 0 && (r.cb == 1 || (r.cb == 0 && r.thr ≥ bigThr))
+  r.rel == 0 && r.ref == 0 && (r.tcs == 0 || (r.tcs == 1 && r.cb == 0 && r.thr > 0))
 
 def cbInert (r : CbRule) : Bool := r.strat == 2 && r.thr ≥ bigThr
 def flowInert (r : FlowRule) : Bool := r.tcs == 0 && r.cb == 0 && r.thr ≥ bigThr
@@ -44,6 +44,7 @@ structure St where
   cb : Mgr CbRule CbSt := Mgr.empty
   flow : Mgr FlowRule FlowSt := Mgr.empty
   now : Nat := 1900000000000     -- every phase starts at the same virtual time
+  nodes : List (Nat × Sentinel.LA.Arr Nat) := []     -- resource nodes: pass counts (20 × 500 ms)
   -- oracle side
   phaseB : Bool := false
   cbRaw : List (Nat × List CbRule) := []       -- what the caller passed last for each resource (valid rules)
@@ -57,9 +58,13 @@ structure St where
 def lookup {α} (d : α) (xs : List (Nat × α)) (k : Nat) : α := ((xs.find? (·.1 == k)).map (·.2)).getD d
 def assoc {α} (xs : List (Nat × α)) (k : Nat) (v : α) : List (Nat × α) := (k, v) :: xs.filter (·.1 != k)
 
+def nodeOf (s : St) (x : Nat) : Sentinel.LA.Arr Nat := lookup (Sentinel.LA.mk 20 500 s.now) s.nodes x
+
 /-- one entry (with its completion) on resource `x` -/
 def entry (s : St) (x : Nat) (err : Bool) : St × String :=
-  let (fb, w, fcs) := flowScan s.now (fun _ => 0) (s.flow.ctls x)
+  let node := nodeOf s x
+  let s := { s with nodes := assoc s.nodes x node }
+  let (fb, w, fcs) := flowScan s.now (flowRead node s.now) (s.flow.ctls x)
   let s := { s with flow := s.flow.set x fcs }
   match fb with
   | some id => (s, s!"block flow {id}")
@@ -68,8 +73,12 @@ def entry (s : St) (x : Nat) (err : Bool) : St × String :=
     match cbb with
     | some id => ({ s with cb := s.cb.set x ccs }, s!"block cb {id}")
     | none =>
+      -- passed every check: the stat slots count the pass, the completion feeds the breakers
+      let node := (Sentinel.LA.addAt node s.now 1).1
+      let fcs := fcs.map (flowRecordPass s.now)
       let ccs := ccs.map (cbComplete s.now err)
-      ({ s with cb := s.cb.set x ccs }, if w = 0 then "pass" else s!"pass wait {w}")
+      ({ s with cb := s.cb.set x ccs, flow := s.flow.set x fcs, nodes := assoc s.nodes x node },
+        if w = 0 then "pass" else s!"pass wait {w}")
 
 /-- oracle bookkeeping for one reload of a module: per resource, was the list left unchanged (inert rules aside),
     and does the `NoSteal` hypothesis hold -/
